@@ -38,6 +38,8 @@ type Step struct {
 	N        int      `json:"n,omitempty"`     // skip: number of empty blocks
 	K        int      `json:"k,omitempty"`     // block: the process dies after the k-th database write of this block's commit
 	After    string   `json:"after,omitempty"` // block: the process dies after the first commit write whose label has this prefix
+	AfterN   int      `json:"afterN,omitempty"` // block: ... after the afterN-th such write
+	Quiet    bool     `json:"quiet,omitempty"` // skip: only the last two blocks are logged step by step; the others end in one "Jump" record
 }
 
 // RecTx is the abstract description of a delivered transaction (ground truth included).
@@ -241,7 +243,7 @@ func (c *runCtx) proj(rec *Rec, h uint64) {
 				rec.Stack = res.Stack
 			}
 		} else {
-			if !c.sc.Lean {
+			if !c.sc.Lean || rec.Kind == "Init" {
 				rec.St = a
 			}
 			if rec.Obs != nil {
@@ -283,7 +285,7 @@ func (c *runCtx) diskProjection(rec *Rec) {
 		c.u.AbsorbExport(&st)
 		d := ProjectDisk(c.nd, &st, c.u)
 		d.H = rec.H
-		if !c.sc.NoProj && !c.sc.Lean {
+		if !c.sc.NoProj && (!c.sc.Lean || rec.Kind == "Init") {
 			rec.Disk = d
 		}
 		ar := ReadAppRecords(c.nd.Disk)
@@ -379,8 +381,12 @@ func (r *Runner) RunScenario(sc *Scenario) {
 			if k == 0 {
 				k = 1
 			}
+			if st.Quiet && k > 4 {
+				c.quietBlocks(k-2, st.Absent)
+				k = 2
+			}
 			for j := 0; j < k && !c.dead; j++ {
-				c.block(&Step{Op: "block"})
+				c.block(&Step{Op: "block", Absent: st.Absent})
 			}
 		case "restart":
 			c.restart("Restart")
@@ -391,6 +397,44 @@ func (r *Runner) RunScenario(sc *Scenario) {
 	if c.dead {
 		r.Stats["cut"]++
 	}
+}
+
+// quietBlocks executes n empty blocks without logging each call (fast-forward over the unbond / move / jail periods);
+// a panic is still reported, and one "Jump" record with the full state re-bases the trace afterwards.
+func (c *runCtx) quietBlocks(n int, absent []string) {
+	nd := c.nd
+	for j := 0; j < n && !c.dead; j++ {
+		h := c.h + 1
+		c.clock += nd.W.BlockSeconds
+		t := time.Unix(c.clock, 0).UTC()
+		var res CallResult
+		step := "BeginBlock"
+		var req abci.RequestBeginBlock
+		res = guard(func() { req = nd.BeginReq(h, t, absent, nil) })
+		if res.Panic == "" {
+			res = nd.Begin(req)
+		}
+		if res.Panic == "" {
+			step = "EndBlock"
+			_, res = nd.End(h)
+		}
+		if res.Panic == "" {
+			step = "Commit"
+			_, res = nd.Commit()
+		}
+		if res.Panic != "" {
+			rec := c.rec(step, h)
+			c.fail(rec, res)
+			c.r.emit(rec)
+			return
+		}
+		c.h = h
+		c.r.Stats["blocks"]++
+	}
+	rec := c.rec("Jump", c.h)
+	c.diskProjection(rec)
+	c.proj(rec, c.h)
+	c.r.emit(rec)
 }
 
 func (c *runCtx) infoObs(rec *Rec) {
@@ -588,16 +632,7 @@ func (c *runCtx) block(st *Step) {
 				c.idead = true
 			}
 		}
-		c.proj(drec, h)
-		c.r.emit(drec)
-		c.r.Stats["tx"]++
-		if dr.Code == 0 {
-			c.r.Stats["tx_ok"]++
-		}
-		if c.dead {
-			return
-		}
-		// heights named by vote transactions and lock due blocks enter the universe
+		// heights named by vote transactions and lock due blocks enter the universe (before the projection of this step)
 		for _, k := range []string{"height", "due"} {
 			if v, ok := bt.Abs[k]; ok {
 				switch x := v.(type) {
@@ -615,6 +650,15 @@ func (c *runCtx) block(st *Step) {
 					}
 				}
 			}
+		}
+		c.proj(drec, h)
+		c.r.emit(drec)
+		c.r.Stats["tx"]++
+		if dr.Code == 0 {
+			c.r.Stats["tx_ok"]++
+		}
+		if c.dead {
+			return
 		}
 	}
 	// EndBlock
@@ -656,7 +700,7 @@ func (c *runCtx) block(st *Step) {
 		}
 	}
 	if crash {
-		nd.Disk.WC.ArmLabel(st.K, st.After)
+		nd.Disk.WC.ArmLabel(st.K, st.After, st.AfterN)
 	} else {
 		nd.Disk.WC.Arm(0)
 	}
